@@ -745,6 +745,63 @@ func ruleDecodedTimestampLayout(r *Run, p *Prog, rule string) {
 			}
 		default:
 			nFrac++
+			// seconds and fraction come from ONE split of the decoded float: nsec = (n - float64(secs))·1e9
+			// with the very secs handed to time.Unix, or both halves of one math.Modf. Taking the two
+			// from different roundings (Floor for one, Modf for the other) is off by a second before 1970.
+			strip := func(v ssa.Value) ssa.Value {
+				for {
+					switch x := v.(type) {
+					case *ssa.Convert:
+						v = x.X
+						continue
+					case *ssa.ChangeType:
+						v = x.X
+						continue
+					}
+					return v
+				}
+			}
+			secs := strip(pa.Resolve(unix.Call.Args[0]))
+			var leaf func(v ssa.Value, depth int) ssa.Value
+			leaf = func(v ssa.Value, depth int) ssa.Value {
+				v = strip(pa.Resolve(v))
+				if depth > 8 {
+					return v
+				}
+				switch x := v.(type) {
+				case *ssa.BinOp:
+					if x.Op == token.MUL {
+						if _, isC := x.Y.(*ssa.Const); isC {
+							return leaf(x.X, depth+1)
+						}
+						if _, isC := x.X.(*ssa.Const); isC {
+							return leaf(x.Y, depth+1)
+						}
+					}
+				case *ssa.Call:
+					if (isCallTo(&x.Call, "math.Round") || isCallTo(&x.Call, "math.Trunc")) && len(x.Call.Args) == 1 {
+						return leaf(x.Call.Args[0], depth+1)
+					}
+				}
+				return v
+			}
+			fr := leaf(unix.Call.Args[1], 0)
+			consistent := false
+			if sub, ok := fr.(*ssa.BinOp); ok && sub.Op == token.SUB {
+				if sameValue(strip(pa.Resolve(sub.Y)), secs) {
+					consistent = true
+				}
+			}
+			if ex, ok := fr.(*ssa.Extract); ok && ex.Index == 1 {
+				if c, ok := ex.Tuple.(*ssa.Call); ok && isCallTo(&c.Call, "math.Modf") {
+					if e0, ok := secs.(*ssa.Extract); ok && e0.Tuple == ex.Tuple && e0.Index == 0 {
+						consistent = true
+					}
+				}
+			}
+			if !consistent && bad == "" {
+				bad, badPos = "the nanoseconds "+descr(fr)+" are not the remainder of the decoded value over the seconds "+descr(secs)+" handed to time.Unix (two different roundings: off by one second for fractional times before 1970)", p.Pos(unix.Pos())
+			}
 		}
 	}
 	ok := bad == "" && nInt > 0 && nFrac > 0
@@ -753,4 +810,245 @@ func ruleDecodedTimestampLayout(r *Run, p *Prog, rule string) {
 		pos = badPos
 	}
 	r.Ob(rule, FnName(f)+"/layouts", pos, ok, true, tern(ok, fmt.Sprintf("%d whole-second path(s); %d fractional path(s) rendered with a layout that has a fractional-seconds element", nInt, nFrac), tern(bad != "", bad+": the decoded text loses the sub-second part of the event's time", "the integer or the float arm of decodeTimeStamp was not found")))
+}
+
+// rulePoolBoundsAgree: the put-back guards of the module's pools ("do not pool buffers above
+// 64KiB", golang.org/issue/23199) keep exactly the same capacities: `cap > K → drop`, i.e. keep
+// iff cap <= K, with one K for events, arrays and the diode's copies. An inverted guard written as
+// `cap < K` silently drops the boundary capacity (which the runtime's size classes make common),
+// and a producer-side shortcut that uses `>=` where the consumer uses `>` disagrees on who owns
+// a buffer of exactly K bytes.
+func rulePoolBoundsAgree(r *Run, p *Prog, rule string, rels []string) {
+	type site struct {
+		fn   string
+		pos  string
+		keep int64 // kept iff cap <= keep
+	}
+	var sites []site
+	seenSite := map[string]bool{}
+	defer func() { _ = seenSite }()
+	for _, f := range p.RootViews(rels, "", nil) {
+		eachInstr(f, func(b *ssa.BasicBlock, i int, in ssa.Instruction) {
+			cc := callCommon(in)
+			if cc == nil || !isCallTo(cc, "(*sync.Pool).Put") {
+				return
+			}
+			for _, c := range necessaryCmps(f, in) {
+				x, y, op := c.X, c.Y, c.Op
+				if _, isC := constInt(x); isC {
+					x, y, op = y, x, swapOp(op)
+				}
+				k, isC := constInt(y)
+				cl, isCall := x.(*ssa.Call)
+				if !isC || !isCall || builtinName(&cl.Call) != "cap" {
+					continue
+				}
+				key := originFnName(f, in) + "@" + p.Pos(in.Pos())
+				if seenSite[key] {
+					continue // the same put wrapper inlined into another root
+				}
+				switch op {
+				case token.LEQ:
+					seenSite[key] = true
+					sites = append(sites, site{originFnName(f, in), p.Pos(in.Pos()), k})
+				case token.LSS:
+					seenSite[key] = true
+					sites = append(sites, site{originFnName(f, in), p.Pos(in.Pos()), k - 1})
+				}
+			}
+		})
+	}
+	if len(sites) < 3 {
+		r.Fail(rule, "pool-bounds/sites", "-", fmt.Sprintf("only %d size-guarded pool Put sites found (events, arrays and the diode's copies expected)", len(sites)))
+		return
+	}
+	count := map[int64]int{}
+	for _, s := range sites {
+		count[s.keep]++
+	}
+	var maj int64
+	best := 0
+	for k, n := range count {
+		if n > best || (n == best && k > maj) {
+			maj, best = k, n
+		}
+	}
+	for _, s := range sites {
+		ok := s.keep == maj
+		r.Ob(rule, s.fn+"/pool-bound", s.pos, ok, true, tern(ok, fmt.Sprintf("buffers are kept iff cap <= %d, like the other pools of the module", s.keep), fmt.Sprintf("this pool keeps buffers iff cap <= %d while the module's other pools keep them up to %d: an object whose buffer has exactly the boundary capacity is dropped (one allocation per event from then on) or, on the producer side of a hand-over, owned by both sides", s.keep, maj)))
+	}
+}
+
+// rulePollDeliversOnce: every iteration of the consumer loop that received something hands the
+// wrapped writer exactly that buffer, exactly once. A second Write (a retry of the tail after a
+// short write, say) gives the destination a buffer that is not the argument of any Write.
+func rulePollDeliversOnce(r *Run, p *Prog, rule string) {
+	f := p.Method("diode", "Writer", "poll")
+	if !r.Anchor(f != nil, rule, "diode.Writer.poll") {
+		return
+	}
+	f = p.View(f, "", nil)
+	var hdr *ssa.BasicBlock
+	var next *ssa.Call
+	eachInstr(f, func(b *ssa.BasicBlock, i int, in ssa.Instruction) {
+		if c, ok := in.(*ssa.Call); ok && c.Call.IsInvoke() && c.Call.Method.Name() == "Next" {
+			next = c
+		}
+	})
+	if next != nil {
+		for _, b := range f.Blocks {
+			if isLoopHeader(b) && loopBlocks(b)[next.Block()] {
+				if hdr == nil || loopBlocks(hdr)[b] {
+					hdr = b
+				}
+			}
+		}
+	}
+	if hdr == nil {
+		r.Ob(rule, FnName(f)+"/delivers-once", p.Pos(f.Pos()), false, true, "the consumer loop around Next() was not found")
+		return
+	}
+	paths, complete := loopIterPaths(hdr, 4000)
+	if !complete || len(paths) == 0 {
+		r.Ob(rule, FnName(f)+"/delivers-once", p.Pos(f.Pos()), false, true, "cannot enumerate the iterations of the consumer loop (undecided, fail closed)")
+		return
+	}
+	isData := func(v ssa.Value) bool {
+		// *(*[]byte)(d) with d the value Next returned
+		for hops := 0; hops < 6; hops++ {
+			switch x := v.(type) {
+			case *ssa.UnOp:
+				if x.Op == token.MUL {
+					v = x.X
+					continue
+				}
+			case *ssa.Convert:
+				v = x.X
+				continue
+			case *ssa.ChangeType:
+				v = x.X
+				continue
+			}
+			break
+		}
+		return v == ssa.Value(next)
+	}
+	bad, badPos, n := "", "", 0
+	for _, ip := range paths {
+		writes, exact := 0, true
+		var wpos token.Pos
+		for _, b := range ip.blocks {
+			for _, in := range b.Instrs {
+				c, ok := in.(*ssa.Call)
+				if !ok || !c.Call.IsInvoke() || (c.Call.Method.Name() != "Write" && c.Call.Method.Name() != "WriteLevel") {
+					continue
+				}
+				writes++
+				wpos = c.Pos()
+				if len(c.Call.Args) == 0 || !isData(c.Call.Args[len(c.Call.Args)-1]) {
+					exact = false
+				}
+			}
+		}
+		n++
+		if (writes != 1 || !exact) && bad == "" {
+			bad = fmt.Sprintf("an iteration of the consumer loop calls the wrapped writer %d time(s)%s", writes, tern(exact, "", " with something other than the buffer it took from the ring"))
+			badPos = p.Pos(wpos)
+			if wpos == token.NoPos {
+				badPos = p.Pos(f.Pos())
+			}
+		}
+	}
+	pos := p.Pos(next.Pos())
+	if bad != "" {
+		pos = badPos
+	}
+	r.Ob(rule, FnName(f)+"/delivers-once", pos, bad == "", true, tern(bad == "", fmt.Sprintf("%d iteration path(s): the wrapped writer is called exactly once, with the buffer Next() returned", n), bad+": the destination receives a buffer that is not byte-identical to the argument of exactly one Write"))
+}
+
+// ruleMultiKeepsEveryWriter: the MultiLevelWriter constructor turns every writer it is given into
+// exactly one destination: each iteration of its loop over the arguments appends one element to the
+// destination list (no `continue` that drops an argument, no flattening that re-queues into the
+// slice being ranged over).
+func ruleMultiKeepsEveryWriter(r *Run, p *Prog, rule string) {
+	f := p.Func("", "MultiLevelWriter")
+	if !r.Anchor(f != nil, rule, "MultiLevelWriter") {
+		return
+	}
+	f = p.View(f, "", nil)
+	lwT := p.NamedType("", "LevelWriter")
+	isDestAppend := func(in ssa.Instruction) bool {
+		c, ok := in.(*ssa.Call)
+		if !ok || builtinName(&c.Call) != "append" {
+			return false
+		}
+		sl, ok := c.Type().Underlying().(*types.Slice)
+		return ok && lwT != nil && types.Identical(sl.Elem(), lwT)
+	}
+	var hdr *ssa.BasicBlock
+	eachInstr(f, func(b *ssa.BasicBlock, i int, in ssa.Instruction) {
+		if !isDestAppend(in) {
+			return
+		}
+		for _, hb := range f.Blocks {
+			if isLoopHeader(hb) && loopBlocks(hb)[b] {
+				if hdr == nil || loopBlocks(hb)[hdr] {
+					hdr = hb
+				}
+			}
+		}
+	})
+	if hdr == nil {
+		r.Ob(rule, FnName(f)+"/keeps-every-writer", p.Pos(f.Pos()), false, true, "no loop that appends to the destination list was found in MultiLevelWriter (undecided, fail closed)")
+		return
+	}
+	paths, complete := loopIterPaths(hdr, 4000)
+	bad := ""
+	for _, ip := range paths {
+		n := 0
+		for _, b := range ip.blocks {
+			for _, in := range b.Instrs {
+				if isDestAppend(in) {
+					n++
+				}
+			}
+		}
+		if n != 1 && bad == "" {
+			bad = fmt.Sprintf("an iteration over the given writers adds %d destination(s)", n)
+		}
+	}
+	if !complete || len(paths) == 0 {
+		bad = "cannot enumerate the iterations of the constructor's loop"
+	}
+	// the loop is the only loop (a nested loop re-queuing writers is how arguments get lost)
+	nLoops := 0
+	for _, b := range f.Blocks {
+		if isLoopHeader(b) {
+			nLoops++
+		}
+	}
+	if bad == "" && nLoops != 1 {
+		bad = fmt.Sprintf("the constructor has %d loops; one loop over the arguments is expected", nLoops)
+	}
+	r.Ob(rule, FnName(f)+"/keeps-every-writer", p.Pos(f.Pos()), bad == "", true, tern(bad == "", fmt.Sprintf("%d iteration path(s): each given writer becomes exactly one destination", len(paths)), bad+": a writer handed to MultiLevelWriter does not become a destination (it receives no event and is not closed), or becomes one twice"))
+}
+
+// ruleGlobalPanicFatalDelegate: the package-level log.Panic()/log.Fatal() always go through the
+// Logger methods of the same name: those attach the panic/exit completion that runs even when the
+// event is filtered. A level shortcut in front of them returns a nil event and nothing happens.
+func ruleGlobalPanicFatalDelegate(r *Run, p *Prog, rule string) {
+	for _, name := range []string{"Panic", "Fatal"} {
+		f := p.Func("log", name)
+		m := p.Method("", "Logger", name)
+		if !r.Anchor(f != nil && m != nil, rule, "log."+name+" / (*Logger)."+name) {
+			continue
+		}
+		fv := p.View(f, "keep-"+name, func(g *ssa.Function) bool { return g == m })
+		isCall := func(in ssa.Instruction) bool {
+			c, ok := in.(*ssa.Call)
+			return ok && staticCallee(&c.Call) == m
+		}
+		skip, path := pathExists(fv, nil, isReturn, isCall, nil)
+		r.Ob(rule, FnName(f)+"/always-delegates", p.Pos(f.Pos()), !skip, true, tern(!skip, "every path goes through (*Logger)."+name+", which attaches the completion that panics/exits also for a filtered event", "log."+name+"() can return without calling (*Logger)."+name+": for a filtered level nothing panics/exits, unlike log.Logger."+name+"()"+pathHint(p, path)))
+	}
 }
